@@ -358,13 +358,13 @@ def _consistent(gen, g, tags, where):
 def _net_change_in_isclose_window(srf):
     """The generator's own model copy compares equal (library ==, i.e. numpy.isclose) to the SRF's model although a parameter differs."""
     a, b = srf.generator.model, srf.model
-    if not (a == b):
-        return False
 
     def par(m):
         return [float(m.var), float(m.len_scale), float(m.nugget)] + [float(x) for x in m.anis] + [float(x) for x in m.angles] + [float(getattr(m, o)) for o in m.opt_arg]
 
-    return par(a) != par(b)
+    pa, pb = par(a), par(b)
+    # own evaluation of the window (not the library's ==, which is part of what is being tested)
+    return len(pa) == len(pb) and pa != pb and bool(np.all(np.isclose(pa, pb)))
 
 
 def check_history(case, rec):
